@@ -81,7 +81,7 @@ META = {
 # which property a failing clause of Usb2CtlTrace!Failing belongs to
 CLAUSE_OWNER = {
     "setup_ack": {"C06"}, "setup_ack_early": {"C06"}, "setup_strobe": {"C06"}, "setup_fields": {"C06"},
-    "stray_data_ack": {"C06", "C20"},
+    "stray_data_ack": {"C06", "C07", "C20"},     # (C07: answering another device's data disturbs the control transfer)
     "ep0_in_resp": {"C07"}, "ep0_out_resp": {"C07"},
     "addr_obs": {"C08"}, "cfg_obs": {"C08"}, "resp_foreign_addr": {"C08", "C20"},
     "ep_toggle": {"C10", "C07", "C08"},      # another endpoint's data toggle moved by a STALLed request / foreign traffic
@@ -142,6 +142,13 @@ def dat(pid, payload, **kw):
     return d
 
 
+def sof_at(addr, hi=0, **kw):
+    """A SOF whose frame number has the low 7 bits `addr` (what an address-matching token detector would compare)."""
+    d = {"a": "sof", "frame": (addr & 0x7F) | ((hi & 0xF) << 7)}
+    d.update(kw)
+    return d
+
+
 ACK = {"a": "hs", "pid": "ACK"}
 FACK = {"a": "hs", "pid": "ACK", "if_data": False}      # the host's ACK of another device's data (after a foreign IN token)
 
@@ -166,7 +173,8 @@ def classify_setup(s8):
     return "sup"
 
 
-ALL_NOISE = ["foreign_in", "foreign_in_ack", "foreign_in_ack", "foreign_out", "foreign_setup", "sof", "junk", "badtok",
+ALL_NOISE = ["foreign_in", "foreign_in_ack", "foreign_in_ack", "foreign_out", "foreign_out", "foreign_setup", "sof",
+             "sof_addr", "sof_addr", "junk", "badtok", "ping",
              "bulk_in", "bulk_in", "bulk_in_noack", "bulk_out", "bulk_out_bad", "none_ep", "long_bad", "src"]
 NO_FOREIGN_ACK = [k for k in ALL_NOISE if k != "foreign_in_ack"]
 
@@ -212,6 +220,11 @@ class Gen:
             self.emit(tok("SETUP", a, 0), dat("DATA0", s8, trunc=self.rng.randint(1, 10)))
         elif how == "badtok":
             self.emit(tok("SETUP", a, 0, ok=False), dat("DATA0", s8))
+        elif how == "trail":
+            # a complete packet with a valid CRC16 over a prefix of the payload, then more bytes before rx_active falls
+            n = self.rng.choice([8, 8, 8, 7, 1, 0])
+            self.emit(tok("SETUP", a, 0), dat("DATA0", s8[:n], suffix=[self.rng.randrange(256)
+                                                                        for _ in range(self.rng.randint(1, 6))]))
         else:
             raise ValueError(how)
 
@@ -238,13 +251,17 @@ class Gen:
             self.emit(tok("IN", self.other_addr(), r.randrange(16)), dict(FACK))
         elif k == "foreign_in":
             self.emit(tok("IN", self.other_addr(), r.randrange(16)))
+        elif k == "ping":
+            self.emit(tok("PING", self.addr, r.choice([0, 0, 2])))
         elif k == "foreign_out":
-            self.emit(tok("OUT", self.other_addr(), r.randrange(16)),
+            self.emit(tok("OUT", self.other_addr(), r.choice([0, 0, r.randrange(16)])),
                       dat(r.choice(["DATA0", "DATA1"]), [r.randrange(256) for _ in range(r.choice([0, 1, 3, 8, 8, 12]))]))
         elif k == "foreign_setup":
             self.emit(tok("SETUP", self.other_addr(), 0), dat("DATA0", [r.randrange(256) for _ in range(8)]))
         elif k == "sof":
             self.emit({"a": "sof", "frame": r.randrange(2048), "ok": r.random() < 0.8})
+        elif k == "sof_addr":
+            self.emit(sof_at(self.addr + r.choice([0, 0, 0, 1, 127]), r.randrange(16)))
         elif k == "junk":
             self.emit({"a": "junk", "bytes": r.choice([[0x00], [0xFF, 0x12], [0xA5, 1, 2, 3], [0x69], [0xE1, 0x00],
                                                         [0x2D, 0x00]])})       # bad PIDs, a truncated SETUP token
@@ -354,8 +371,15 @@ class Gen:
                 maybe_noise()
                 if stop == "data":
                     return
-            if r.random() < 0.15:
+            x = r.random()
+            if x < 0.15:
                 self.status_out(ok=False)        # corrupted status packet, retried
+            elif x < 0.22:
+                self.emit(tok("OUT", self.addr, 0), dat("DATA1", [], suffix=[r.randrange(256)]))   # ZLP + trailing byte
+            elif x < 0.28:
+                self.emit(tok("PING", self.addr, 0))
+            if x < 0.28:
+                maybe_noise()                    # ... and whatever else the bus carries before the retry
             self.status_out()
         elif ln > 0:
             # host-to-device data stage: only unsupported requests have one
@@ -407,7 +431,7 @@ def gen_clean(rng, prop, desc_len, max0, n_transfers):
         x = r.random()
         if prop == "C06" and x < 0.5:
             # a SETUP that must be refused / is lost (sometimes right after an accepted one), then the retry
-            how = r.choice(["crc", "short", "long", "tokonly", "trunc", "trunc", "badtok", "crc"])
+            how = r.choice(["crc", "short", "long", "tokonly", "trunc", "trunc", "badtok", "crc", "trail", "trail"])
             s8 = g.rand_supported() if r.random() < 0.5 else [r.randrange(256) for _ in range(8)]
             if how == "trunc" and r.random() < 0.6:
                 g.emit(tok("SETUP", g.addr, 0), dat("DATA0", s8, trunc=r.choice([1, 1, 2, 3])))
@@ -448,7 +472,8 @@ def gen_clean(rng, prop, desc_len, max0, n_transfers):
                    early_status=r.random() < 0.15)
         if r.random() < 0.08:
             g.reset()
-    return g.s + sanity(g.addr, cfg_probe=r.random() < 0.5)
+    sc = g.s + sanity(g.addr, cfg_probe=r.random() < 0.5)
+    return with_sofs(sc) if r.random() < (0.6 if prop == "C20" else 0.3) else sc
 
 
 # ---- systematic alignment sweeps (every cycle offset, every stall / gap position) --------------------
@@ -474,6 +499,44 @@ def spaced(script, d, only=None):
             elif k == "src":
                 a["n"] = d
         out.append(a)
+    return out
+
+
+def interpose(script, inserts, rotate=0):
+    """All variants of `script` with one foreign transaction inserted at one legal position: never between a
+    SETUP/OUT token and its data packet, never between the device's data and the host's ACK.  `inserts` is a list
+    of transactions; position i gets inserts[(i + rotate) % len] - or every one of them when rotate is None."""
+    out = []
+    n = 0
+    for i in range(1, len(script) + 1):
+        prev = script[i - 1]
+        nxt = script[i] if i < len(script) else None
+        if prev["a"] == "tok" and prev["pid"] in ("SETUP", "OUT") and nxt is not None and nxt["a"] == "data":
+            continue
+        if nxt is not None and nxt["a"] == "hs":
+            continue
+        which = range(len(inserts)) if rotate is None else [(n + rotate) % len(inserts)]
+        for w in which:
+            out.append((i, w, script[:i] + [dict(a) for a in inserts[w]] + script[i:]))
+        n += 1
+    return out
+
+
+def with_sofs(script, every=False):
+    """`script` with a SOF whose low 7 frame bits equal the address of the preceding token inserted after every IN /
+    PING transaction (after every transaction when `every`): a SOF is never answered, whatever its frame number."""
+    out = []
+    addr = 0
+    for i, a in enumerate(script):
+        out.append(a)
+        if a["a"] == "tok":
+            addr = a["addr"]
+        nxt = script[i + 1] if i + 1 < len(script) else None
+        if nxt is not None and nxt["a"] in ("data", "hs"):
+            continue
+        ends_in = (a["a"] == "tok" and a["pid"] in ("IN", "PING")) or a["a"] == "hs"
+        if ends_in or (every and a["a"] in ("data", "tok")):
+            out.append(sof_at(addr + (0, 0, 1, 127)[i % 4], i))
     return out
 
 
@@ -593,6 +656,56 @@ def aligned_scripts(prop, desc_len, max0, distances=QUICK_DISTANCES):
     for name, (body, a_end) in sc.items():
         for d in distances:
             out.append(("%s@d=%d" % (name, d), spaced(body, d) + (sanity(a_end) if a_end is not None else [])))
+    # --- families that are swept over something else than the distance ---------------------------------------
+    FOREIGN = [[tok("OUT", 9, 0), dat("DATA1", [])], [tok("OUT", 9, 0), dat("DATA0", [1, 2, 3])],
+               [tok("SETUP", 9, 0), dat("DATA0", GC)], [tok("IN", 9, 1), dict(FACK)], [tok("OUT", 9, 1), dat("DATA1", [])]]
+
+    def foreign_everywhere(name, body, a_end, all_from=None):
+        """one complete transaction for ANOTHER ADDRESS at every legal position of `body` (every kind of transaction
+        from position `all_from` on, kinds rotating before it)"""
+        for i, w, sc2 in interpose(body, FOREIGN, rotate=None):
+            if (all_from is not None and i >= all_from) or w == i % len(FOREIGN):
+                out.append(("%s +foreign%d@%d" % (name, w, i), sc2 + (sanity(a_end) if a_end is not None else [])))
+
+    if prop == "C06":
+        # a CRC-valid packet followed by more bytes before rx_active falls (trailing garbage / merged packets)
+        for n, ks in ((8, (1, 2, 3, 4, 5, 6)), (7, (1, 2, 3)), (1, (1, 2)), (0, (1, 2, 3))):
+            for k in ks:
+                out.append(("trail-%d+%d" % (n, k), [tok("SETUP", 0, 0), dat("DATA0", GS[:n], suffix=[0x5A, 0xC3, 0, 0xFF, 1, 0x80][:k])]
+                            + rd(0, GC) + sanity(0)))
+                if n == 8:
+                    out.append(("trail-%d+%d-after-good" % (n, k), rd(0, GC) + [tok("SETUP", 0, 0), dat("DATA0", SA, suffix=[7] * k),
+                                                                              tok("IN", 0, 0)] + sanity(0)))
+    if prop == "C07":
+        base = [tok("SETUP", 0, 0), dat("DATA0", GD)] + [tok("IN", 0, 0), dict(ACK)] * n_dev
+        k0 = len(base)
+        foreign_everywhere("status-zlp-corrupted", base + [tok("OUT", 0, 0), dat("DATA1", [], ok=False), tok("OUT", 0, 0), dat("DATA1", [])], 0, k0)
+        foreign_everywhere("status-token-only", base + [tok("OUT", 0, 0), tok("OUT", 0, 0), dat("DATA1", [])], 0, k0)
+        foreign_everywhere("status-after-ping", base + [tok("PING", 0, 0), tok("OUT", 0, 0), dat("DATA1", [])], 0, k0)
+        foreign_everywhere("status-zlp-with-trailing-byte", base + [tok("OUT", 0, 0), dat("DATA1", [], suffix=[9]), tok("OUT", 0, 0),
+                                                                    dat("DATA1", [])], 0, k0)
+        foreign_everywhere("write-status-ack-lost", wr(0, SC, ack_lost=True), 0)
+        foreign_everywhere("out-data-stage", [tok("SETUP", 0, 0), dat("DATA0", VO), tok("OUT", 0, 0), dat("DATA1", [1, 2]), tok("IN", 0, 0)], 0)
+    if prop == "C08":
+        foreign_everywhere("set-address-ack-lost", wr(0, SA, ack_lost=True) + [tok("IN", 0, 3), tok("IN", 5, 3)], 5)
+        foreign_everywhere("set-config", [on] + bin_ + wr(0, SC) + bin_, 0)
+        foreign_everywhere("clear-halt-ack-lost", [on] + bin_ + wr(0, CH, ack_lost=True) + bin_, 0)
+    if prop == "C10":
+        foreign_everywhere("vendor-in", [tok("SETUP", 0, 0), dat("DATA0", VI), tok("IN", 0, 0), tok("IN", 0, 0)], 0)
+        foreign_everywhere("stalled-clear-feature", [on] + bin_ + [tok("SETUP", 0, 0), dat("DATA0", S(1, 1, 0, 0x81, 0)), tok("IN", 0, 0)] + bin_, 0)
+        foreign_everywhere("vendor-out", [tok("SETUP", 0, 0), dat("DATA0", VO), tok("OUT", 0, 0), dat("DATA1", [1, 2]), tok("IN", 0, 0)], 0)
+    if prop == "C20":
+        foreign_everywhere("read", rd(0, GS), 0)
+    if prop in ("C20", "C08", "C07"):
+        # SOFs whose low 7 frame bits hit the device address after every IN / PING transaction (and, once, after every
+        # transaction) of every scenario - at address 0 and after SET_ADDRESS
+        for name, (body, a_end) in sc.items():
+            tail = sanity(a_end) if a_end is not None else []
+            out.append(("%s +sof-at-address" % name, with_sofs(spaced(body, 4) + tail)))
+            if prop == "C20":
+                out.append(("%s +sof-at-address-everywhere" % name, with_sofs(spaced(body, 7) + tail, every=True)))
+        out.append(("addressed +sof-at-address", with_sofs(wr(0, S(0, 5, 0x2A, 0, 0)) + [on, tok("IN", 0x2A, 1), dict(ACK), tok("PING", 0x2A, 2)]
+                                                      + rd(0x2A, GS) + wr(0x2A, SC) + [tok("IN", 0x2A, 1), dict(ACK)] + sanity(0x2A), every=True)))
     # stalls in front of every byte of every short device packet, gaps in front of every byte of short host packets
     if prop in ("C20", "C07", "C06"):
         shapes = [("setup-ack", [tok("SETUP", 0, 0), dat("DATA0", VN)], 1, 1),
@@ -731,7 +844,7 @@ def script_from_behaviour(beh):
         elif k == "hs":
             s.append(dict(ACK))
         elif k == "sof":
-            s.append({"a": "sof", "frame": (7 * i) % 2048})
+            s.append(sof_at(st["addr"] + (0, 0, 1)[i % 3], i))      # low 7 frame bits = the device address (or next to it)
         elif k == "junk":
             s.append({"a": "junk", "bytes": junk[i % len(junk)]})
         elif k == "reset":
@@ -953,7 +1066,7 @@ def unit_decoder(rep, prop="C06"):
             tr = runner.run(sc)
             items.append((tr, {"dut": label, "origin": "witness", "witness": wname}))
         for cname, sc in aligned_scripts("C06", {}, 64, (2, 5, 11)):
-            if cname.startswith(("runt-", "bad-crc", "back-to-back", "setup-data gap")):
+            if cname.startswith(("runt-", "trail-", "bad-crc", "back-to-back", "setup-data gap")):
                 tr = runner.run(sc)
                 items.append((tr, {"dut": label, "origin": "aligned", "case": cname}))
         judge(rep, prop, items, cfg, label)
